@@ -396,9 +396,9 @@ TxOutLaws ==
 (* utxo entries, outpoint keys *)
 
 HeightClasses == {0, 1, 63, 64, 8255, 8256, 100024, 113931, 338156, 1056831, 1056832, 2147483647}
-                 \cup (IF Thorough THEN {2, 9, 127, 128, 65535, 65536, 840000, 1073741823, 1073741824} ELSE {})
+                 \cup (IF Thorough THEN {9, 127, 128, 840000, 1073741823, 1073741824} ELSE {})
 EntryAmounts == {<< >>, Dec(<<5,0,0,0,0,0,0,0,0,0>>), MaxSatoshi, MaxI64}
-                \cup (IF Thorough THEN {<<1>>, Dec(<<1,5,0,0,0,0,0,0>>), FromInt(546)} ELSE {})
+                \cup (IF Thorough THEN {<<1>>, Dec(<<1,5,0,0,0,0,0,0>>)} ELSE {})
 EntryScriptNames == {"pkh", "sh", "pkc", "pku", "pku-neg", "pku-doc2", "pkc-off",
                      "pku-bady", "true", "empty", "nop121", "nop122", "p2tr"}
                     \cup (IF Thorough THEN {r.name : r \in {x \in SeqSet(AllScripts) : Len(x.s) < 300}} ELSE {})
